@@ -48,7 +48,8 @@ namespace fs
             if (allocator == nullptr) {
                 // if align_memory, bind to aligned alloc, else use default
                 if (align_memory) {
-                    m_allocator = AlignedAlloc(alignment);
+                    // posix_memalign() requires a multiple of sizeof(void*)
+                    m_allocator = AlignedAlloc(alignment < sizeof(void*) ? sizeof(void*) : alignment);
                 }
             } else {
                 m_allocator = *allocator;
